@@ -332,3 +332,291 @@ Proof.
     intros v0 G0 NB0. eauto.
   - apply crash_inv in H. destruct H; discriminate.
 Qed.
+
+(* ====================================================================== *)
+(* 5. The binding sites                                                    *)
+(* ====================================================================== *)
+(* states that differ only in the globals / in same-kind cell contents *)
+Lemma priv_change s s' :
+  priv s -> wf s' -> kinds_stable s s' -> kinds_stable s' s -> same_err s s' ->
+  (forall c v', hget (st_heap s') c = Some v' -> Forall (clean s') (children v')) ->
+  (forall n l, frame_get n (st_globals s') = Some l -> n <> n_err -> n <> n_errmsg -> clean s' l) ->
+  (forall n l, frame_get n (st_globals s') = Some l -> n = n_err \/ n = n_errmsg ->
+               frame_get n (st_globals s) = Some l) ->
+  priv s'.
+Proof.
+  intros PV W' K K' E Hc Hg He. constructor; auto.
+  - intros c t i G. destruct (K' _ _ G) as (v & Gv & SK). destruct v; simpl in SK; try contradiction.
+    destruct SK as [<- <-]. destruct (pv_box s PV _ _ _ Gv) as (w & Hw & NBw).
+    destruct (K _ _ Hw) as (w' & Hw' & SK'). exists w'. split; auto.
+    intros t0 i0 Q; subst. destruct w; simpl in SK'; try contradiction. eapply NBw; reflexivity.
+  - intros n l G. destruct (str_eq_dec n n_err) as [->|N1].
+    { pose proof (He _ _ G (or_introl eq_refl)) as G0. destruct (pv_glob s PV _ _ G0) as [A _].
+      split; [eapply allocd_stable; eauto | congruence]. }
+    destruct (str_eq_dec n n_errmsg) as [->|N2].
+    { pose proof (He _ _ G (or_intror eq_refl)) as G0. destruct (pv_glob s PV _ _ G0) as [A _].
+      split; [eapply allocd_stable; eauto | congruence]. }
+    destruct (Hg _ _ G N1 N2) as [A NB]. split; auto.
+  - intros l l' G1 G2. apply (pv_distinct s PV); apply He; auto.
+Qed.
+
+(* scope.set / scope.update of a clean cell under a name other than err / errmsg, global scope *)
+Lemma bind_global_priv s n c g' :
+  priv s -> clean s c -> name_ok n = true ->
+  (g' = frame_set n c (st_globals s) \/ g' = frame_replace n c (st_globals s)) ->
+  priv (upd_globals g' s).
+Proof.
+  intros PV C N Hg. pose proof (name_ok_neq _ N) as [N1 N2].
+  assert (K : kinds_stable s (upd_globals g' s)) by (intros l v G; exists v; split; auto using same_kind_refl).
+  assert (K' : kinds_stable (upd_globals g' s) s) by (intros l v G; exists v; split; auto using same_kind_refl).
+  assert (FG : forall m, m <> n -> frame_get m g' = frame_get m (st_globals s)).
+  { intros m Hm. destruct Hg as [-> | ->]; [apply frame_get_set_other | apply frame_get_replace_other]; auto. }
+  assert (E : same_err s (upd_globals g' s)).
+  { intro l. unfold err_loc; simpl. rewrite !FG by congruence. tauto. }
+  apply (priv_change s); auto.
+  - apply (pv_wf s PV).
+  - intros c0 v' G. eapply Forall_impl; [|exact (pv_cont s PV c0 v' G)]. intros; eapply clean_stable; eauto.
+  - intros m l G M1 M2. simpl in G. destruct (str_eq_dec m n) as [->|Hm].
+    + assert (l = c).
+      { destruct Hg as [-> | ->].
+        - rewrite frame_get_set_same in G; congruence.
+        - destruct (frame_get n (st_globals s)) eqn:F0.
+          + rewrite (frame_get_replace_same _ _ _ _ F0) in G; congruence.
+          + exfalso. clear -G F0. induction (st_globals s) as [|[k y] t IH]; simpl in *; [discriminate|].
+            destruct (str_eqb k n) eqn:Q; simpl in G; rewrite Q in G; [discriminate | auto]. }
+      subst l. eapply clean_stable; eauto.
+    + rewrite FG in G by auto. destruct (pv_glob s PV _ _ G) as [A NB].
+      eapply clean_stable; eauto. split; auto.
+  - intros m l G M. simpl in G. rewrite FG in G; auto. destruct M; subst; congruence.
+Qed.
+
+Lemma frame_clean_set s n c f : frame_clean s f -> clean s c -> frame_clean s (frame_set n c f).
+Proof.
+  intros F C m l G. destruct (str_eq_dec m n) as [->|N].
+  - rewrite frame_get_set_same in G. inversion G; subst; auto.
+  - rewrite frame_get_set_other in G by auto. eauto.
+Qed.
+
+(* set_var with a clean cell: SDecl after copy_or_ref, loop variables, parameters *)
+Lemma set_var_priv n c e s r s' :
+  priv s -> env_clean s e -> clean s c -> name_ok n = true -> set_var n c e s = (r, s') ->
+  priv s' /\ kinds_stable s s' /\ same_err s s' /\ forall e', r = Ok e' -> env_clean s' e'.
+Proof.
+  unfold set_var. intros PV EC C N H. destruct (str_eqb n underscore).
+  { inversion H; subst. split; [auto|].
+    split; [intros l v G; exists v; split; auto using same_kind_refl|].
+    split; [intro; tauto|]. intros ? Q; inversion Q; subst; auto. }
+  destruct e as [|f t]; inversion H; subst; clear H.
+  - assert (PV' : priv (upd_globals (frame_set n c (st_globals s)) s)) by (eapply bind_global_priv; eauto).
+    split; auto. split; [intros l v G; exists v; split; auto using same_kind_refl|].
+    split; [|intros ? Q; inversion Q; subst; constructor].
+    pose proof (name_ok_neq _ N) as [N1 N2]. intro l. unfold err_loc; simpl.
+    rewrite !frame_get_set_other by congruence. tauto.
+  - split; auto. split; [intros l v G; exists v; split; auto using same_kind_refl|].
+    split; [intro; tauto|]. intros ? Q; inversion Q; subst. inversion EC; subst.
+    constructor; auto. apply frame_clean_set; auto.
+Qed.
+
+(* element store  a[i] = v  with a clean v *)
+Lemma children_list_set els k (v : loc) x : In x (list_set els k v) -> In x els \/ x = v.
+Proof.
+  revert k. induction els as [|a t IH]; intros k H; simpl in H; [tauto|].
+  destruct k; simpl in H.
+  - destruct H; [right; auto | left; right; auto].
+  - destruct H; [left; left; auto|]. destruct (IH _ H); [left; right; auto | right; auto].
+Qed.
+
+Lemma store_same_kind_priv s la v0 v :
+  priv s -> hget (st_heap s) la = Some v0 -> is_composite v0 = true -> same_kind v0 v ->
+  Forall (clean s) (children v) ->
+  priv (upd_heap (hset (st_heap s) la v) s) /\
+  kinds_stable s (upd_heap (hset (st_heap s) la v) s) /\ same_err s (upd_heap (hset (st_heap s) la v) s).
+Proof.
+  intros PV G C SK Hc. set (s' := upd_heap (hset (st_heap s) la v) s).
+  assert (K : kinds_stable s s').
+  { intros l x Gx. unfold s'; simpl. destruct (Pos.eq_dec l la) as [->|N].
+    - rewrite hget_hset_same. exists v. split; auto. congruence.
+    - rewrite hget_hset_other by auto. exists x; split; auto using same_kind_refl. }
+  assert (K' : kinds_stable s' s).
+  { intros l x Gx. unfold s' in Gx; simpl in Gx. destruct (Pos.eq_dec l la) as [->|N].
+    - rewrite hget_hset_same in Gx. inversion Gx; subst x. exists v0. split; auto.
+      destruct v0, v; simpl in *; try contradiction; try discriminate; auto.
+    - rewrite hget_hset_other in Gx by auto. exists x; split; auto using same_kind_refl. }
+  assert (E : same_err s s') by (intro; unfold s'; simpl; tauto).
+  split; [|split; auto].
+  apply (priv_change s); auto.
+  - eapply fresh_ok_hset; eauto. apply (pv_wf s PV).
+  - intros c x Gx. unfold s' in Gx; simpl in Gx. destruct (Pos.eq_dec c la) as [->|N].
+    + rewrite hget_hset_same in Gx. inversion Gx; subst x.
+      eapply Forall_impl; [|exact Hc]. intros; eapply clean_stable; eauto.
+    + rewrite hget_hset_other in Gx by auto.
+      eapply Forall_impl; [|exact (pv_cont s PV c x Gx)]. intros; eapply clean_stable; eauto.
+  - intros n l Gn N1 N2. unfold s' in Gn; simpl in Gn. destruct (pv_glob s PV _ _ Gn) as [A NB].
+    eapply clean_stable; eauto. split; auto.
+Qed.
+
+Lemma store_elem_priv s la els k v :
+  priv s -> hget (st_heap s) la = Some (HArr els) -> clean s v ->
+  priv (upd_heap (hset (st_heap s) la (HArr (list_set els k v))) s).
+Proof.
+  intros PV G C.
+  refine (proj1 (store_same_kind_priv s la (HArr els) (HArr (list_set els k v)) PV G eq_refl I _)).
+  simpl. apply Forall_forall. intros x Hx. apply children_list_set in Hx. destruct Hx as [Hx | ->]; auto.
+  pose proof (pv_cont s PV _ _ G) as F. simpl in F. rewrite Forall_forall in F. auto.
+Qed.
+
+(* m[k] = v / m.k = v with a clean v *)
+Lemma premove_subset {V} k (p : list (str * V)) x : In x (premove k p) -> In x p.
+Proof.
+  induction p as [|[k' y] t IH]; simpl; [tauto|]. destruct (str_eqb k' k); simpl; intuition.
+Qed.
+Lemma store_key_priv s la om k v :
+  priv s -> hget (st_heap s) la = Some (HMap om) -> clean s v ->
+  priv (upd_heap (hset (st_heap s) la (HMap (oset k v om))) s).
+Proof.
+  intros PV G C.
+  refine (proj1 (store_same_kind_priv s la (HMap om) (HMap (oset k v om)) PV G eq_refl I _)).
+  pose proof (pv_cont s PV _ _ G) as F. simpl in F. rewrite Forall_forall in F.
+  simpl. apply Forall_forall. intros x Hx. apply in_map_iff in Hx. destruct Hx as ([k' y] & <- & Hy).
+  unfold oset in Hy. destruct (plookup k (pairs om)); simpl in Hy;
+    (destruct Hy as [Q | Hy]; [inversion Q; subst; auto|]);
+    apply premove_subset in Hy; apply F; apply in_map_iff; exists (k', y); auto.
+Qed.
+(* del m k *)
+Lemma del_key_priv s la om k :
+  priv s -> hget (st_heap s) la = Some (HMap om) ->
+  priv (upd_heap (hset (st_heap s) la (HMap (odel k om))) s).
+Proof.
+  intros PV G.
+  refine (proj1 (store_same_kind_priv s la (HMap om) (HMap (odel k om)) PV G eq_refl I _)).
+  pose proof (pv_cont s PV _ _ G) as F. simpl in F. rewrite Forall_forall in F.
+  simpl. apply Forall_forall. intros x Hx. apply in_map_iff in Hx. destruct Hx as ([k' y] & <- & Hy).
+  unfold odel in Hy. destruct (plookup k (pairs om)); simpl in Hy.
+  - apply premove_subset in Hy. apply F; apply in_map_iff; exists (k', y); auto.
+  - apply F; apply in_map_iff; exists (k', y); auto.
+Qed.
+
+(* globalErr itself: same-kind stores into the err cells keep the invariant *)
+Lemma store_err_priv s l v0 v :
+  priv s -> hget (st_heap s) l = Some v0 -> is_basic v0 = true -> same_kind v0 v ->
+  priv (upd_heap (hset (st_heap s) l v) s).
+Proof.
+  intros PV G B SK. set (s' := upd_heap (hset (st_heap s) l v) s).
+  assert (K : kinds_stable s s').
+  { intros x y Gx. unfold s'; simpl. destruct (Pos.eq_dec x l) as [->|N].
+    - rewrite hget_hset_same. exists v. split; auto. congruence.
+    - rewrite hget_hset_other by auto. exists y; split; auto using same_kind_refl. }
+  assert (K' : kinds_stable s' s).
+  { intros x y Gx. unfold s' in Gx; simpl in Gx. destruct (Pos.eq_dec x l) as [->|N].
+    - rewrite hget_hset_same in Gx. inversion Gx; subst y. exists v0. split; auto.
+      destruct v0, v; simpl in *; try contradiction; try discriminate; auto.
+    - rewrite hget_hset_other in Gx by auto. exists y; split; auto using same_kind_refl. }
+  assert (E : same_err s s') by (intro; unfold s'; simpl; tauto).
+  apply (priv_change s); auto.
+  - eapply fresh_ok_hset; eauto. apply (pv_wf s PV).
+  - intros c x Gx. unfold s' in Gx; simpl in Gx. destruct (Pos.eq_dec c l) as [->|N].
+    + rewrite hget_hset_same in Gx. inversion Gx; subst x.
+      destruct v0, v; simpl in *; try contradiction; try discriminate; constructor.
+    + rewrite hget_hset_other in Gx by auto.
+      eapply Forall_impl; [|exact (pv_cont s PV c x Gx)]. intros; eapply clean_stable; eauto.
+  - intros n x Gn N1 N2. unfold s' in Gn; simpl in Gn. destruct (pv_glob s PV _ _ Gn) as [A NB].
+    eapply clean_stable; eauto. split; auto.
+Qed.
+
+(* eval_exprs (arguments, array literals): whatever eval_expr returns — possibly the err cell
+   or a box around it — the list holds copies, all clean.  Stated for any expression evaluator
+   [ev] that keeps the invariant (that is what the nine-way induction would supply). *)
+Section ExprList.
+  Variable ev : expr -> M loc.
+  Hypothesis ev_ok : forall x s l s', priv s -> ev x s = (Ok l, s') ->
+                                       priv s' /\ kinds_stable s s' /\ same_err s s'.
+  Fixpoint exprs_of (d : nat) (l : list expr) : M (list loc) :=
+    match l with
+    | [] => ret []
+    | x :: t => let* v := ev x in let* c := copy_or_ref d v in let* r := exprs_of d t in ret (c :: r)
+    end.
+
+  Lemma kinds_stable_trans a b c : kinds_stable a b -> kinds_stable b c -> kinds_stable a c.
+  Proof.
+    intros K1 K2 l v G. destruct (K1 _ _ G) as (v' & G' & S1). destruct (K2 _ _ G') as (v'' & G'' & S2).
+    exists v''; split; auto. eapply same_kind_trans; eauto.
+  Qed.
+  Lemma same_err_trans a b c : same_err a b -> same_err b c -> same_err a c.
+  Proof. intros E1 E2 l. destruct (E1 l), (E2 l). split; auto. Qed.
+
+  Lemma exprs_of_clean d l : forall s cs s',
+    priv s -> exprs_of d l s = (Ok cs, s') ->
+    priv s' /\ kinds_stable s s' /\ same_err s s' /\ Forall (clean s') cs.
+  Proof.
+    induction l as [|x t IH]; intros s cs s' PV H; simpl in H.
+    - apply ret_inv in H. destruct H as [Q ->]. inversion Q; subst. split; [auto|].
+      split; [intros l v G; exists v; split; auto using same_kind_refl|].
+      split; [intro; tauto | constructor].
+    - apply bind_inv in H. destruct H as [(v & s1 & H1 & H) | (e & _ & Q)]; [|discriminate].
+      destruct (ev_ok _ _ _ _ PV H1) as (PV1 & K1 & E1).
+      apply bind_inv in H. destruct H as [(c & s2 & H2 & H) | (e & _ & Q)]; [|discriminate].
+      destruct (copy_or_ref_clean _ _ _ _ _ PV1 H2) as (PV2 & K2 & E2 & C2 & _).
+      apply bind_inv in H. destruct H as [(r & s3 & H3 & H) | (e & _ & Q)]; [|discriminate].
+      destruct (IH _ _ _ PV2 H3) as (PV3 & K3 & E3 & C3).
+      apply ret_inv in H. destruct H as [Q ->]. inversion Q; subst.
+      split; auto. split; [eauto using kinds_stable_trans|]. split; [eauto using same_err_trans|].
+      constructor; auto. apply (clean_stable s2 s3); auto.
+  Qed.
+End ExprList.
+
+Lemma env_clean_stable s s' e :
+  priv s -> kinds_stable s s' -> same_err s s' -> env_clean s e -> env_clean s' e.
+Proof.
+  intros PV K E EC. unfold env_clean in *. eapply Forall_impl; [|exact EC].
+  intros f F n l G. eapply clean_stable; eauto.
+Qed.
+
+(* x := e  (after e has been evaluated to the in-flight cell v): copy, then bind *)
+Lemma decl_binding_priv d v n e s1 c s2 r s3 :
+  priv s1 -> env_clean s1 e -> name_ok n = true ->
+  copy_or_ref d v s1 = (Ok c, s2) -> set_var n c e s2 = (r, s3) ->
+  priv s3 /\ forall e', r = Ok e' -> env_clean s3 e'.
+Proof.
+  intros PV EC N HC HS. destruct (copy_or_ref_clean _ _ _ _ _ PV HC) as (PV2 & K2 & E2 & C2 & _).
+  destruct (set_var_priv _ _ _ _ _ _ PV2 (env_clean_stable _ _ _ PV K2 E2 EC) C2 N HS) as (PV3 & _ & _ & H).
+  auto.
+Qed.
+
+(* a[i] = e  (after e has been evaluated to v and a to la): copy, then element store *)
+Lemma assign_elem_priv d v s1 c s2 la els k :
+  priv s1 -> copy_or_ref d v s1 = (Ok c, s2) -> hget (st_heap s2) la = Some (HArr els) ->
+  priv (upd_heap (hset (st_heap s2) la (HArr (list_set els k c))) s2).
+Proof.
+  intros PV HC G. destruct (copy_or_ref_clean _ _ _ _ _ PV HC) as (PV2 & _ & _ & C2 & _).
+  apply store_elem_priv; auto.
+Qed.
+
+(* m[k] = e / m.k = e *)
+Lemma assign_key_priv d v s1 c s2 la om k :
+  priv s1 -> copy_or_ref d v s1 = (Ok c, s2) -> hget (st_heap s2) la = Some (HMap om) ->
+  priv (upd_heap (hset (st_heap s2) la (HMap (oset k c om))) s2).
+Proof.
+  intros PV HC G. destruct (copy_or_ref_clean _ _ _ _ _ PV HC) as (PV2 & _ & _ & C2 & _).
+  apply store_key_priv; auto.
+Qed.
+
+(* A3, the whole-run statement (NOT proved here; see the report): every state reached by a run of
+   a program that declares no variable named err / errmsg, and by the events delivered after it,
+   satisfies the privacy invariant.  What is proved above: the invariant holds initially
+   (priv_init), gives the reachability statement (priv_reach), is kept by allocation, by
+   copy_or_ref (whose result is always clean: copy_or_ref_clean), by binding a clean cell to a
+   variable (set_var_priv, bind_global_priv), by element / key stores of a clean cell and del
+   (store_elem_priv, store_key_priv, del_key_priv), by globalErr's own stores (store_err_priv)
+   and by evalExprList over any invariant-keeping expression evaluator (exprs_of_clean).
+   Missing: threading these through the nine mutually recursive functions (with the side
+   conditions: the value in flight — result of eval_expr, SigReturn (Some v) — is allocated but
+   may be an err cell or a box around one; every frame of the environment is clean), and the
+   rebinding `err = e` itself (update_var n_err c with c the fresh copy). *)
+Definition err_cells_private_full : Prop :=
+  forall fuel P stop input ff ay o s1,
+    no_err_decl P = true ->
+    run_program fuel P (init_state stop input ff ay) = (o, s1) ->
+    priv s1 /\
+    forall evs o2 s2,
+      fold_left (fun acc ev => handle_event fuel P (fst ev) (snd ev) (snd acc)) evs (o, s1) = (o2, s2) ->
+      priv s2.
